@@ -93,6 +93,69 @@ type c07Active struct {
 	pending    bool
 	remoteIdx  uint64
 	pendingIdx int64
+	// channel kind as the OpenChannel reports it: 0 regular, 1
+	// option-scid-alias, 2 zero-conf unconfirmed, 3 zero-conf confirmed
+	// (ShortChanID() = alias = ch, ZeroConfRealScid() = real). Links and
+	// keystones always use ShortChanID().
+	kind int
+	real int
+}
+
+// c07OpenChan builds the OpenChannel the switch / circuit map gets from the
+// channel DB for an active channel of the environment.
+func c07OpenChan(a c07Active, st chanstate.Store) *chanstate.OpenChannel {
+	ct := chanstate.SingleFunderTweaklessBit
+	switch a.kind {
+	case 1:
+		ct |= chanstate.AnchorOutputsBit | chanstate.ScidAliasChanBit | chanstate.ScidAliasFeatureBit
+	case 2, 3:
+		ct |= chanstate.AnchorOutputsBit | chanstate.ZeroConfBit | chanstate.ScidAliasChanBit |
+			chanstate.ScidAliasFeatureBit
+	}
+	oc := &chanstate.OpenChannel{
+		ChanType:       ct,
+		ShortChannelID: lnwire.NewShortChanIDFromInt(uint64(a.ch)),
+		IsPending:      a.pending,
+		Db:             st,
+		RemoteCommitment: chanstate.ChannelCommitment{
+			LocalHtlcIndex: a.remoteIdx,
+		},
+	}
+	if a.kind == 3 {
+		oc.SetConfirmedScidForStore(lnwire.NewShortChanIDFromInt(uint64(a.real)))
+	}
+	return oc
+}
+
+func c07ActiveStr(x c07Active) string {
+	p := "-"
+	if x.pendingIdx >= 0 {
+		p = strconv.FormatInt(x.pendingIdx, 10)
+	}
+	return fmt.Sprintf("%d:%d:%d:%s:%d:%d", x.ch, c07b(x.pending), x.remoteIdx, p, x.kind, x.real)
+}
+
+// c07Kind draws a channel kind; the real scid of a confirmed zero-conf channel
+// is mostly an id no keystone uses, sometimes the id of another channel of the
+// universe.
+func (c *c07) c07Kind(a *c07Active, nchans int) {
+	switch r := c.rng.Intn(100); {
+	case r < 35:
+		a.kind = 0
+	case r < 50:
+		a.kind = 1
+	case r < 65:
+		a.kind = 2
+	default:
+		a.kind = 3
+		a.real = 100 + a.ch
+		if c.p(30) {
+			a.real = 1 + (a.ch+c.rng.Intn(nchans-1))%nchans
+			if a.real == a.ch {
+				a.real = 100 + a.ch
+			}
+		}
+	}
 }
 type c07Env struct {
 	closed []c07Closed
@@ -208,14 +271,8 @@ func (c *c07) config() *CircuitMapConfig {
 			var res []*chanstate.OpenChannel
 			reads := new(int)
 			for _, a := range c.env.active {
-				res = append(res, &chanstate.OpenChannel{
-					ShortChannelID: lnwire.NewShortChanIDFromInt(uint64(a.ch)),
-					IsPending:      a.pending,
-					Db:             &c07Store{pendingIdx: a.pendingIdx, reads: reads, failAt: c.env.fail},
-					RemoteCommitment: chanstate.ChannelCommitment{
-						LocalHtlcIndex: a.remoteIdx,
-					},
-				})
+				res = append(res, c07OpenChan(a,
+					&c07Store{pendingIdx: a.pendingIdx, reads: reads, failAt: c.env.fail}))
 			}
 			return res, nil
 		},
@@ -622,11 +679,7 @@ func (c *c07) opRestart(env c07Env) {
 		cl = append(cl, fmt.Sprintf("%d:%d", x.ch, c07b(x.pending)))
 	}
 	for _, x := range env.active {
-		p := "-"
-		if x.pendingIdx >= 0 {
-			p = strconv.FormatInt(x.pendingIdx, 10)
-		}
-		ac = append(ac, fmt.Sprintf("%d:%d:%d:%s", x.ch, c07b(x.pending), x.remoteIdx, p))
+		ac = append(ac, c07ActiveStr(x))
 	}
 	var rk []CircuitKey
 	for k, v := range env.res {
@@ -992,6 +1045,7 @@ func (c *c07) genRestart(disciplined bool) {
 			continue // channel unknown to the channel DB
 		}
 		a := c07Active{ch: ch, pending: c.p(8), pendingIdx: -1}
+		c.c07Kind(&a, c07Chans)
 		if disciplined {
 			// the committed ids of a live channel are a prefix: the bound
 			// lies at or after every id that made it into a commitment.
@@ -1116,6 +1170,23 @@ func (c *c07) scripted() {
 	c.opTrim(2, 0, false)
 	c.opRestart(live(0, 0))
 	c.endCase()
+
+	// half-open rollback for every channel kind: the keystones are keyed by
+	// ShortChanID() (the alias for zero-conf channels), ids 0 committed, 1 not
+	for kind := 0; kind < 4; kind++ {
+		c.startCase("script-kind", false)
+		c.snap()
+		c.opCommit([]CircuitKey{k(1, 0), k(1, 1)}, false)
+		c.opOpen([]Keystone{{InKey: k(1, 0), OutKey: k(2, 0)}, {InKey: k(1, 1), OutKey: k(2, 1)}}, false)
+		ek := noEnv()
+		ek.active = []c07Active{
+			{ch: 1, remoteIdx: 0, pendingIdx: -1, kind: kind, real: 101},
+			{ch: 2, remoteIdx: 1, pendingIdx: -1, kind: kind, real: 102},
+		}
+		c.opRestart(ek)
+		c.opCommit([]CircuitKey{k(1, 0), k(1, 1)}, false)
+		c.endCase()
+	}
 
 	// a gap in the opened ids stops the scan (ContiguousFrom is needed)
 	c.startCase("script-gap", false)
